@@ -1895,6 +1895,19 @@ for _op in [0x10, 0x17, 0x20, 0x21, 0x22, 0x23, 0x24, 0x25, 0x28, 0x29, 0x2B,
             0x3C, 0x3D, 0x3E, 0x3F, 0x40, 0x41]:
     mmx_undefined[(0x0F, 0x38, _op)] = (0,)
 
+# memory operands narrower than the register they fill or come from
+mmx_mem_size = {
+    '#p#insrb':   x86_afs.u08, '#p#insrw':   x86_afs.u16,
+    '#p#extrb':   x86_afs.u08, '#p#extrw':   x86_afs.u16,
+    '#p#movsxbw': x86_afs.f64, '#p#movzxbw': x86_afs.f64,
+    '#p#movsxbd': x86_afs.f32, '#p#movzxbd': x86_afs.f32,
+    '#p#movsxbq': x86_afs.u16, '#p#movzxbq': x86_afs.u16,
+    '#p#movsxwd': x86_afs.f64, '#p#movzxwd': x86_afs.f64,
+    '#p#movsxwq': x86_afs.f32, '#p#movzxwq': x86_afs.f32,
+    '#p#movsxdq': x86_afs.f64, '#p#movzxdq': x86_afs.f64,
+    'round##SS#': x86_afs.f32, 'round##SD#': x86_afs.f64,
+    }
+
 def mmx_undefined_form(m, prefix):
     # 'prefix' is the list of prefixes of the instruction; the last of
     # 66/F2/F3 is the mandatory one
@@ -2799,8 +2812,14 @@ class x86_mn(x86_mn_base):
                             if sse_prefix == [0xF3]:
                                 modr[x86_afs.size] = x86_afs.f64
                         elif   '#lps#' in m.name or '#hps#' in m.name:
-                            if sse_prefix == [] or sse_prefix == [0x66]:
+                            if sse_prefix == [] or sse_prefix == [0x66] \
+                                    or sse_prefix == [0xF2]: # (movddup)
                                 modr[x86_afs.size] = x86_afs.f64
+                        elif m.name == 'movnt#q#':
+                            if sse_prefix == []: # movntq m64, mm
+                                modr[x86_afs.size] = x86_afs.f64
+                        elif m.name in mmx_mem_size:
+                            modr[x86_afs.size] = mmx_mem_size[m.name]
                         elif m.name == 'movq':
                             if sse_prefix == [] or sse_prefix == [0x66]:
                                 modr[x86_afs.size] = x86_afs.f64
